@@ -17,14 +17,22 @@ attribute (memory.pagemap, file.pagemap, max_pfn) or per_ctx_alloc itself; the
 follow-up puts the attribute back, sweeps every page through every clone and
 frees everything.  Modelled and tied by traces: per_ctx_alloc (`slot`), the
 arch.page_size hook chain of LKCD (`pgsz`), mem_pagemap_revalidate's lock
-discipline (`pmap`)."""
+discipline (`pmap`).
+
+Round 4: a SET of files (split diskdump, kdump_open_fdset) is opened with the fault
+armed, on a fresh object and on one that has slots registered already; the survivor's
+file set must be what it was (file.set.<N> slots = file.set.number, one fd and one
+name each, no key behind the last slot), it then opens ONE file through an array of
+exactly one descriptor and the set again.  file.set.number raised on a fresh object is
+modelled (`nfiles`: numFilesGrow = all-or-nothing group under the writer lock) and tied
+by traces."""
 import concurrent.futures, os, re
 import kdf, dumpgen
 from props import c10
 
 OWN = ["kdumpNew_fail", "kdumpNew_ok", "kdumpNew_oom_safe", "kdumpClone_fail", "kdumpClone_ok", "kdumpClone_oom_safe",
        "addRegion_nomem", "addRegion_fail_unchanged", "addRegion_ok",
-       "allocAll_fail", "allocAll_ok", "pgRound_slot_fail", "pgRound_safe", "setPageSize_safe", "pagemapGet_safe"]
+       "allocAll_fail", "allocAll_ok", "pgRound_slot_fail", "pgRound_safe", "setPageSize_safe", "pagemapGet_safe", "numFilesGrow_safe"]
 CITED = ["Kdf.Props.C10.set_nomem", "Kdf.Props.C10.history", "Kdf.Props.C16.vadd_trunc", "Kdf.Props.C16.vadd_inbounds"]
 THEOREMS = ["Kdf.Props.C18." + t for t in OWN] + CITED
 VOFF = 0xffff880000000000
@@ -166,7 +174,7 @@ def scenarios(R, dumps, first):
             add("clone0s%d" % k, "clone0s%d {n} {t}" % k, model="clone 0 %d" % k)
             add("clonexs%d" % k, "clonexs%d {n} {t}" % k, model="clone 1 %d" % k)
         for kind in ("str", "num", "sub", "vmci", "iter", "nfiles%d" % R.rng.randint(2, 5)):
-            add("attr-" + kind, "attr {n} {t} " + kind)
+            add("attr-" + kind, "attr {n} {t} " + kind, model=("nfiles " + kind[6:]) if kind.startswith("nfiles") else None)
         add("sysinit", "sysinit {n} {t}")
     add("clone0-elf", "clone0 {n} {t} %s %s" % (e[0], pl(e[1])), "elf")
     add("clonex-elf", "clonex {n} {t} %s %s" % (e[0], pl(e[1])), "elf")
@@ -390,6 +398,11 @@ def run(R):
             m = max(sc.N // 2 - c, 0)
             for n in range(0, sc.N + 2):
                 mlines.append("pgsz %s %d %d %d" % (sc.name, c, m, n)); mcases.append((sc, n))
+        elif sc.model.startswith("nfiles"):
+            # k new slots of sc.N / k blocks each, kept only as a whole
+            k = int(sc.model.split()[1])
+            for n in range(0, sc.N + 2):
+                mlines.append("nfiles %s %d %d %d" % (sc.name, sc.N // k, k, n)); mcases.append((sc, n))
         elif sc.model == "pmap":
             for n in range(0, sc.N + 2):
                 mlines.append("pmap %s %d %d" % (sc.name, sc.N, n)); mcases.append((sc, n))
@@ -517,7 +530,10 @@ def run(R):
                     "KVADDR incl. unaligned ELF through the read cache, compressed diskdump pages, LKCD/SADUMP/s390 pages through a clone; "
                     "arch.page_size and cache.size changed on an open dump with clones and put back; first query of memory.pagemap / "
                     "file.pagemap / max_pfn (bits compared with the generator's frame sets); per_ctx_alloc on 1..3 contexts; "
-                    "translation set-up; five attribute operations; addrxlat sys_os_init; free) the "
+                    "translation set-up; six attribute operations (incl. file.set.number raised by 2..5 files, resized afterwards); a set of "
+                    "2..3 split diskdump files opened by kdump_open_fdset on a fresh object and on one with slots registered before, followed by "
+                    "a single-file open through a one-element descriptor array and the set again, the file.set.<N> slots checked against "
+                    "file.set.number each time; addrxlat sys_os_init; free) the "
                     "clean run is counted (N allocations) and every n in 1..N+1 is failed in a forked child: status/NULL, crash or sanitizer "
                     "report, lock ledger at return, leak after freeing the survivors, follow-up calls on the survivors (attributes, full page "
                     "sweep against generator content, re-open after a failed open); non-trivial = cases in which an allocation really failed",
@@ -528,9 +544,11 @@ def run(R):
                samples=sample)
     return "proof", cov, ["exactly one allocation fails per call (the property's fault model)",
                           "the modelled constructors are kdump_new, kdump_clone, alloc_ctx, attr_dict_new, xlat_new/xlat_clone, add_pfn_region, "
-                          "per_ctx_alloc/per_ctx_free, lkcd_realloc_compressed + def_realloc_caches (arch.page_size on an open LKCD dump), "
+                          "per_ctx_alloc/per_ctx_free, num_files_pre_hook growing the file set (numFilesGrow), "
+                          "lkcd_realloc_compressed + def_realloc_caches (arch.page_size on an open LKCD dump), "
                           "mem_pagemap_revalidate (locks and region-array growth); all other allocation sites are enumerated and observed, not proved",
                           "implementation-only (no model): open/read of LKCD, SADUMP, s390; re-open after a failed open; cache.size changes; "
+                          "kdump_open_fdset on a set of files and the opens that follow it (the file-set consistency test reads struct attr_data); "
                           "file.pagemap and max_pfn queries; the LKCD page index (search_page_desc)",
 
                           "single-threaded: lock findings are self-deadlocks / holds at return, not races (C05)"]
